@@ -57,7 +57,10 @@ CONFIG = dict(
                "(sched_loop_blocks_only_when_full), then nothing is ever delivered again (sched_loop_block_is_forever; reproduced on the real scheDisp: one handler posting to 10 idle siblings), "
                "never with at most 9 mailboxes on the dispatcher (sched_few_mailboxes_never_block, pigeonhole), and outside that state a returning handler drains everything "
                "(sched_release_delivers_all); tied to the real scheDisp + run service + real mailboxes by run sched (handler posts included, kept where a slot is free or the target is "
-               "already scheduled), which also demands loop-goroutine-only and never-two-at-a-time.",
+               "already scheduled), which also demands loop-goroutine-only and never-two-at-a-time. Schedule has no deadline: the model has a wait op (clock time passes) that changes nothing "
+               "(sched_wait_inert), so however long a handler keeps the loop goroutine every buffered run and every poster parked in Schedule is still there and is served when it returns "
+               "(sched_long_handler_loses_nothing); run sched lets 1 ms .. 2 min of virtual time pass while the gated handler holds the loop goroutine (runs buffered, posters blocked) and when idle, "
+               "and compares delivered ids / blocked posters after each wait and after the release.",
     level_note="Partial: atomics are assumed sequentially consistent single steps; in the mailbox's Fine model goring/mpsc are FIFO lists and mpsc.Push is one step "
                "(sequential refinement to a list, ring growth included: ring_*/mpsc_push_refines/mpsc_pop_refines, run ring; mpsc's swap/link window and arbitrary producer "
                "interleavings: mpsc_delivers_swap_order … mailbox_no_lost_wakeup_split_push, run mpsc; that Fine with the split push refines the composed system beyond the "
@@ -87,6 +90,7 @@ CONFIG = dict(
                        "mailbox_pushS_is_swap_link", "mailbox_popS_is_list_pop", "mailbox_sysqueue_invariant", "mailbox_no_lost_wakeup_split_push",
                        "sched_channel_bounded", "sched_exactly_once_in_order", "sched_idle_all_delivered", "sched_idle_delivered_eq_posted", "sched_pending_has_run", "sched_blocked_only_when_full", "pending_work_can_progress", "can_always_drain",
                        "sched_loop_blocks_only_when_full", "sched_loop_block_is_forever", "sched_few_mailboxes_never_block", "sched_release_delivers_all",
+                       "sched_wait_inert", "sched_long_handler_loses_nothing",
                        "x_reachable_inv", "x_base_step_is_fine_step", "x_single_runner", "x_delivered_prefix", "x_delivered_is_prefix_of_posted", "x_no_lost_wakeup",
                        "x_quiescent_all_delivered", "x_pause_has_helper", "x_panic_hands_over_and_returns", "x_escalated_were_delivered", "x_system_first_trace",
                        "x_throughput_counter_inert", "x_can_always_drain", "schedule_call_finds_queue_empty",
@@ -131,7 +135,11 @@ CONFIG = dict(
          "1/4 of the cases have panicking handlers (each user message 1/4, each normal system message 1/3: the handler panics after being logged, run() recovers, EscalateFailure is observed). "
          "Run sched additionally: the gated handler takes commands and posts FROM THE LOOP GOROUTINE to siblings / its own mailbox (systematic: k=0..8 foreign posts, then the handler fills the "
          "channel to exactly 9, one more post to an already scheduled mailbox and one to its own; random: 1/3 of the while-busy posts in half of the rounds, only where a slot is free or the target "
-         "is already scheduled; a selfpost with no handler executing posts nothing)",
+         "is already scheduled; a selfpost with no handler executing posts nothing); "
+         "LONG handlers: sd wait ms= lets virtual time pass (1 ms / 20 ms / 0.5 s / 1 s / 2999 / 3000 / 3001 ms / 5 s / 10 s / 30 s / 1 min / 2 min) while the gated handler keeps the loop goroutine — "
+         "systematic: k = 3, 9, 10, 12 distinct mailboxes posted, wait 1 s / 5 s / 2 min, release, one more post; random: half of the rounds, waits between the while-busy posts (1/4 each), one before "
+         "the release, 1/6 one on the idle dispatcher; in those rounds nobody posts to the busy mailbox itself (after a long handler run() begins a smooth pause: the order of that one mailbox's "
+         "backlog relative to the others is then not the model's); every release is observed after 10 ms of settling (the run service sleeps 1-2 ms after a heavy frame)",
     trusted_base=[
         "Lean 4.33.0 kernel; axioms audited per theorem (propext, Classical.choice, Quot.sound)",
         "hand-written models lean/Cell2v/Model/Mailbox.lean (Abs + Fine), lean/Cell2v/Model/MailboxX.lean (FineX = Fine + throughput counter + panicking handlers + "
